@@ -375,6 +375,11 @@ def respell(rng, n, enabled, p=0.6, depth=0):
                 return out
         if "flip" in enabled and rng.random() < p and a[2] not in ("in", "not in"):
             a[4] = not a[4]
+        elif ("flip" in enabled and a[2] in ("in", "not in") and a[1] in STRING_VARS and " " not in a[3]
+              and rng.random() < p * 0.4):
+            # `"lit" in var` (substring test) and `var in "lit"` are DIFFERENT markers that the library's
+            # equality conflates (the literal side is not compared): hand the twin the other one
+            a[4] = not a[4]
         if "respell" in enabled and rng.random() < p and a[1] in VERSION_VARS and "*" not in a[3] and "," not in a[3]:
             a[3] = _respell_value(rng, a[1], a[3])
         elif a[1] not in VERSION_VARS and " " in a[3] and rng.random() < p * 0.3:
